@@ -260,6 +260,19 @@ def worker(job, outpath):
                             rec = make_record("corpus:" + name, 0, None, d, mode, 0, rng, hs, want_flow=item.get("flow", False), want_time=item.get("time", False))
                             out.write(json.dumps(rec) + "\n")
                 continue
+            if gen == "fixed":
+                # the same specifications (and inputs) in every worker: only PYTHONHASHSEED differs
+                for i, fc in enumerate(item["cases"]):
+                    case = fc["case"]
+                    d = gens.to_yaml_dict(case) if case is not None else fc["yaml"]
+                    for mode in fc.get("modes", modes):
+                        rng_i = random.Random(fc.get("input_seed", i))
+                        rec = make_record("fixed:%d" % i, i, case, d, mode, item.get("nexec", 0) if case is not None else 0, rng_i, hs)
+                        if rec["ok"]:
+                            c2 = specs.compile_spec(d, mode)
+                            rec["second_compile_same"] = bool(c2.ok and c2.text == rec["text"])
+                        out.write(json.dumps(rec) + "\n")
+                continue
             if gen == "g7":
                 import gens7
                 fn = gens7.g7
@@ -309,7 +322,9 @@ def collect(ctx, items, nworkers=None, hashseeds=None):
         its = []
         for it in items:
             it2 = dict(it)
-            if it["gen"] == "corpus":
+            if it["gen"] == "fixed":
+                pass
+            elif it["gen"] == "corpus":
                 if w != 0 and not it.get("all_workers"):
                     continue
             else:
